@@ -6,7 +6,8 @@
 (* semaphore; Acquire is `select { timeout | tasks <- }`, Release is       *)
 (* deferred in Handler.  Requests end ok / err / panic.  Feeds the Limiter *)
 (* monitor (MonitorAccepts) and checks InFlight <= Max, PermitsConserved   *)
-(* and NoWedge directly.                                                   *)
+(* and NoWedge directly.  SCancel: the caller's own context ends while it  *)
+(* waits (Acquire selects on a context derived from it).                   *)
 (*                                                                         *)
 (* Kind = "rate": RateLimiter.Acquire over integer time with one permit    *)
 (* per tick: now := clock; last := Load(next); next' := max(last + n,      *)
@@ -17,7 +18,10 @@
 (***************************************************************************)
 EXTENDS Integers, Sequences, FiniteSets, TLC
 
-CONSTANTS Kind, Procs, Max, HasTimeout, MaxP, MaxTok, MaxClock, Atomic
+CONSTANTS Kind, Procs, Max, HasTimeout, MaxP, MaxTok, MaxClock, Atomic,
+          Cancel    \* the caller's context is cancelled while it waits for a permit: "none" (not modelled) |
+                    \* "timeout" (the code: any end of the context is the timeout error, no permit taken) |
+                    \* "admit" (negative control: only DeadlineExceeded is reported, a cancelled caller goes on)
 
 LM == INSTANCE Limiter
 
@@ -26,6 +30,7 @@ VARIABLES pc, tasks, mon, outc,          \* semaphore
 vars == <<pc, tasks, mon, outc, clock, next, lastv, nowv, tok, admitAt, admitted>>
 
 Feed(e) == mon' = UNION {LM!LimStep(s, e) : s \in mon}
+Feed2(e1, e2) == mon' = UNION {LM!LimStep(s2, e2) : s2 \in UNION {LM!LimStep(s, e1) : s \in mon}}
 
 Init == /\ pc = [p \in Procs |-> "idle"] /\ tasks = 0 /\ outc = [p \in Procs |-> "ok"]
         /\ mon = IF Kind = "sem"
@@ -45,6 +50,13 @@ SAcquire(p) == /\ pc[p] = "acquire" /\ tasks < Max /\ tasks' = tasks + 1
                /\ Feed([ev |-> "enter", c |-> p]) /\ UNCHANGED <<outc, RateVars>>
 STimeout(p) == /\ pc[p] = "acquire" /\ HasTimeout /\ pc' = [pc EXCEPT ![p] = "done"]
                /\ Feed([ev |-> "end", c |-> p, res |-> "timeout", t |-> 5]) /\ UNCHANGED <<tasks, outc, RateVars>>
+SCancel(p) == /\ pc[p] = "acquire" /\ HasTimeout /\ Cancel # "none"
+              /\ IF Cancel = "timeout"
+                 THEN /\ pc' = [pc EXCEPT ![p] = "done"]
+                      /\ Feed2([ev |-> "cancel", c |-> p], [ev |-> "end", c |-> p, res |-> "timeout", t |-> 0])
+                 ELSE /\ pc' = [pc EXCEPT ![p] = "running"]      \* Acquire returns nil: no permit was taken
+                      /\ Feed2([ev |-> "cancel", c |-> p], [ev |-> "enter", c |-> p])
+              /\ UNCHANGED <<tasks, outc, RateVars>>
 SFinish(p, o) == /\ pc[p] = "running" /\ pc' = [pc EXCEPT ![p] = "release"] /\ outc' = [outc EXCEPT ![p] = o]
                  /\ Feed([ev |-> "exit", c |-> p, o |-> o]) /\ UNCHANGED <<tasks, RateVars>>
 SRelease(p) == /\ pc[p] = "release" /\ tasks' = tasks - 1 /\ pc' = [pc EXCEPT ![p] = "done"]
@@ -87,7 +99,7 @@ Tick == /\ Kind = "rate" /\ clock < MaxClock
 
 RateBound == Kind = "rate" => admitted <= MaxP + 2 * MaxTok + clock
 
-Next == \/ \E p \in Procs : SBegin(p) \/ SAcquire(p) \/ STimeout(p) \/ SRelease(p) \/ (\E o \in {"ok", "err", "panic"} : SFinish(p, o))
+Next == \/ \E p \in Procs : SBegin(p) \/ SAcquire(p) \/ STimeout(p) \/ SCancel(p) \/ SRelease(p) \/ (\E o \in {"ok", "err", "panic"} : SFinish(p, o))
         \/ \E p \in Procs : (\E n \in 1..MaxTok : RLoad(p, n)) \/ RStore(p) \/ RAdmit(p)
         \/ Tick
 Spec == Init /\ [][Next]_vars
